@@ -149,7 +149,7 @@ func runOne(id string, pc *propCheck, wp **World, root, verif, tier string, seed
 				nw := Load(dir)
 				fmt.Println("NOTE " + note)
 				flattened = note
-				theWorld = nil
+				setWorld(nil)
 				*wp = nw
 			} else if why != "" {
 				fmt.Printf("NOTE anonymous struct group(s) %v present but not flattened: %s\n", names, why)
@@ -163,7 +163,7 @@ func runOne(id string, pc *propCheck, wp **World, root, verif, tier string, seed
 			}
 			flattened += fmt.Sprintf("analysed after flattening the wrapper type(s) %v into their owners (scratch copy; the rewriting is syntactic and the copy is type-checked again)", names)
 			fmt.Println("NOTE " + flattened)
-			theWorld = nil
+			setWorld(nil)
 			*wp = Load(dir)
 		} else if why != "" {
 			fmt.Printf("NOTE wrapper type(s) %v present but not flattened: %s\n", names, why)
@@ -175,7 +175,7 @@ func runOne(id string, pc *propCheck, wp **World, root, verif, tier string, seed
 					fmt.Printf("NOTE lock closures were not inlined: the rewritten copy does not load (%v)\n", e)
 				}
 			}()
-			theWorld = *wp
+			setWorld(*wp)
 			if dir, names, why := inlineLockClosures(*wp); dir != "" {
 				note := fmt.Sprintf("analysed after inlining the literals handed to the lock-wrapping helper(s) %v (scratch copy, type-checked again)", names)
 				nw := Load(dir)
@@ -184,7 +184,7 @@ func runOne(id string, pc *propCheck, wp **World, root, verif, tier string, seed
 					flattened += "; "
 				}
 				flattened += note
-				theWorld = nil
+				setWorld(nil)
 				*wp = nw
 			} else if why != "" {
 				fmt.Printf("NOTE lock-wrapping helper(s) %v present but their literals were not inlined: %s\n", names, why)
@@ -197,7 +197,7 @@ func runOne(id string, pc *propCheck, wp **World, root, verif, tier string, seed
 					_ = e // roles could not be resolved: the rules will say so themselves
 				}
 			}()
-			theWorld = *wp
+			setWorld(*wp)
 			resetCaches()
 			func() {
 				defer func() {
@@ -213,13 +213,13 @@ func runOne(id string, pc *propCheck, wp **World, root, verif, tier string, seed
 						flattened += "; "
 					}
 					flattened += note
-					theWorld = nil
+					setWorld(nil)
 					*wp = nw
 				} else if why != "" {
 					fmt.Printf("NOTE the head of the build pipeline is in a helper (%s) but was not inlined: %s\n", name, why)
 				}
 			}()
-			theWorld = *wp
+			setWorld(*wp)
 			resetCaches()
 			if dir, name, why := inlineBuildTail(*wp); dir != "" {
 				note := fmt.Sprintf("analysed after inlining the tail call of the build pipeline to %s (scratch copy, type-checked again)", name)
@@ -228,7 +228,7 @@ func runOne(id string, pc *propCheck, wp **World, root, verif, tier string, seed
 					flattened += "; "
 				}
 				flattened += note
-				theWorld = nil
+				setWorld(nil)
 				*wp = Load(dir)
 			} else if why != "" {
 				fmt.Printf("NOTE the build pipeline is split (%s) but the tail call was not inlined: %s\n", name, why)
@@ -239,7 +239,7 @@ func runOne(id string, pc *propCheck, wp **World, root, verif, tier string, seed
 	w := *wp
 	resetCaches()
 	r := NewReport(id, tier, w)
-	theWorld = w
+	setWorld(w)
 	if flattened != "" {
 		r.Rule("FLATTEN", 1, "wrapper types around shared tables are rewritten into their owners before the rules run")
 		r.OK("FLATTEN", "wrappers", 0, false, "%s", flattened)
@@ -297,7 +297,7 @@ func thoroughExtras(id string, pc *propCheck, w *World, r *Report, root string) 
 	for _, bc := range buildConfigs {
 		func() {
 			defer func() {
-				theWorld = w
+				setWorld(w)
 				if e := recover(); e != nil {
 					msg := fmt.Sprint(e)
 					if u, ok := e.(undecidedErr); ok {
@@ -309,9 +309,9 @@ func thoroughExtras(id string, pc *propCheck, w *World, r *Report, root string) 
 			resetCaches()
 			w2 := Load(w.Root, bc.env...) // the (possibly flattened) tree the default configuration analysed
 			r2 := NewReport(id, "thorough", w2)
-			theWorld = w2
+			setWorld(w2)
 			pc.run(w2, r2)
-			theWorld = w
+			setWorld(w)
 			diffs := []string{}
 			if f2 := strings.Join(w2.Files, ","); f2 != baseFiles {
 				diffs = append(diffs, "the set of analysed files differs: "+f2)
